@@ -76,4 +76,19 @@ PROPS = {
                          'io.StringIO.getvalue is the concatenation of writes; _stop_mocking/_start_mocking composition: B-io',
                          'print() appends one entry to the ghost sequence `printed`'],
     },
+    'C17': {
+        'sidecars': ['contracts/c17_sections.py'],
+        'native': 'c17',
+        'level': 'proof',
+        'explanation': 'next_section (section index arithmetic, every subscript in bounds, independent chunk + newline-count '
+                       'offset, cumulative prefix, exactly one not_enough_sections past the end and no exception), '
+                       'stop_sections (original text and filename restored, stack shrinks), the offset setters and '
+                       '_calculate_section_number verified from the real source. re.split with the default pattern, '
+                       'replace_main and the end-to-end line numbers of the tools are the bounded stand-in B-sections.',
+        'trusted_base': ['re.split(pattern with exactly one capturing group) returns alternating code/marker pieces that '
+                         'concatenate to the input (ground: the default pattern has one group; custom patterns: not covered)',
+                         'Submission.replace_main (property setter): assumed contract, B-sections',
+                         'Report.__getitem__/execute_hooks/start_group/stop_group: assumed frames',
+                         'not_enough_sections(...) attaches exactly one feedback (Feedback.__init__ is C20)'],
+    },
 }
